@@ -461,6 +461,8 @@ def analyse(body, entry_bits, info=None):
                         nb.add("bulk")
             elif name.endswith("Deserializer::<'de>::check_subtype"):
                 nb.update(("E", "W"))
+            elif name.endswith("Deserializer::<'de>::unroll_type"):
+                nb.add("unrolled")
             return frozenset(nb)
         if kind == "switch":
             dp = op_place(t["d"])
@@ -468,6 +470,9 @@ def analyse(body, entry_bits, info=None):
             if dl is None:
                 return frozenset(nb)
             tg = info.tags.get(dl, set())
+            if ("E" in tg or "W" in tg):
+                s = site("typetest", bi, "+".join(sorted(x for x in tg if x in ("E", "W"))), term=t)
+                s.states.add(frozenset(bits))
             for x in ("E", "W"):
                 if x in tg:
                     nb.add(x)
@@ -595,7 +600,7 @@ class Decoder:
                         continue
                     for st in s.states:
                         # what carries into the callee: type tests, vouching markers, charge, guard
-                        carry = frozenset(x for x in st if x in ("E", "W", "charged", "bulk", "guard") or x.startswith("V:"))
+                        carry = frozenset(x for x in st if x in ("E", "W", "charged", "bulk", "guard", "unrolled") or x.startswith("V:"))
                         if carry not in self.entries.setdefault(tgt[0], set()):
                             self.entries[tgt[0]].add(carry)
                             work.append((tgt[0], carry))
